@@ -12,9 +12,10 @@ RULE = ("cases = (predictor class (3 conditional families x Predictor/ExpPredict
         "two output columns); query rows keep a margin >= 0.05*scale from every conditioning point in EVERY column (time "
         "included) so that central differences resolve the kernel; distinct = distinct (class, kernel, data) hash; "
         "non-trivial = gradient has a non-zero entry")
-PARTIAL = ["known defect (known_findings.json, C12:hld-raises:multi-output): hessian_log_determinant raises TypeError for "
-           "predictors with several output columns (FunctionEstimator fitted on a 2-D y); gradient and hessian of such "
-           "predictors are checked",
+PARTIAL = ["predictors with several output columns (fixed defect C12:hld-raises:multi-output): gradient (n,k,d), hessian "
+           "(n,k,d,d) and the (n,k) sign/log-determinant pairs are checked by finite differences / numpy slogdet; the model "
+           "has the shape logic (Lean hld_columns_target, hld_shape_columns, hld_one_column) but no closed form per column "
+           "beyond running the driver once per column",
            "JAX autodiff is an external call: the Lean model takes it as the operator `Diff.jac` with the contract 'returns "
            "the partial derivatives'; that jacrev/jacfwd honour it is checked here by finite differences only",
            "second derivatives have no closed form in the model: the Hessian is modelled as jac-of-jac of the call operator; "
@@ -103,7 +104,7 @@ def run_case(ctx, res, p):
     res.count("rows=%d" % q)
     res.count("root=" + tree[0])
     ycols = 1 if np.ndim(p["y"]) == 1 else np.shape(p["y"])[1]
-    res.count("ycols=%d" % ycols)
+    res.count("ycols=%d%s" % (ycols, "(2-D)" if ycols == 1 and np.ndim(p["y"]) == 2 else ""))
     canon = ("deriv", cname, cov_str(tree), np.asarray(p["x"], float).tobytes(), np.asarray(p["y"], float).tobytes(),
              Xq.tobytes(), None if T is None else T.tobytes())
     sample = {"op": "deriv", "class": cname, "tree": cov_str(tree), "q_shape": list(Xq.shape), "jit": jit_modes,
@@ -316,7 +317,19 @@ def hessian_check(res, p, pred, kind, cname, Xq, T, q, k, ds, W, jit_modes, cmas
                             f"{k} output columns: {str(e)[:120]}", p, signature="C12:hld-raises:multi-output")
             return
         s0, l0 = np.linalg.slogdet(Hk)
-        if s.shape != (q, k) or np.any(s != s0) or np.max(np.abs(l - l0)) > 1e-8 * (1 + np.max(np.abs(l0))):
+        wanth = (q,) if k == 1 else (q, k)        # a single (d, d) block is returned unbatched
+        res.count("hld_output_columns=%d" % k)
+        if s.shape != wanth or l.shape != wanth:
+            res.oracle_fail(f"{cname}.hessian_log_determinant of a predictor with {k} output column(s) has the wrong "
+                            "shape", p, detail={"shape": list(s.shape), "expected": list(wanth)},
+                            signature="C12:shape:hld:multi-output")
+            return
+        s0, l0 = s0.reshape(wanth), l0.reshape(wanth)
+        cond = np.linalg.cond(Hk).reshape(wanth)
+        okc = cond < 1e8
+        dl = np.where(okc, np.abs(l - l0) / (1e-12 * cond * ds + 1e-12), 0.0)
+        res.dev("hld_logdet_over_tol", np.max(dl, initial=0))
+        if np.any(okc & (s != s0)) or np.max(dl, initial=0) > 1.0:
             res.oracle_fail(f"{cname}.hessian_log_determinant of a multi-output predictor is not slogdet of its hessian",
                             p, detail={"shape": list(s.shape)}, signature="C12:hld:multi-output")
         return
@@ -396,6 +409,7 @@ def margin_points(rng, pts, q, scale, tcol=None, tvals=None):
 
 
 def gen_case(rng, fam, kind, ds, q, form="base", ycols=1, jit=(False,), hessian=True):
+    # ycols: 1 = 1-D values, k > 1 = (n, k) values, -1 = (n, 1) values (one column, 2-D)
     scale = loguniform(rng, 0.5, 2.0)
     n = 6          # fixed sizes: XLA compiles every primitive once per shape
     xs = rng.normal(size=(n, ds)) * scale
@@ -412,16 +426,16 @@ def gen_case(rng, fam, kind, ds, q, form="base", ycols=1, jit=(False,), hessian=
          "jit": [bool(j) for j in jit], "hessian": bool(hessian)}
     if fam == "full":
         pts = x
-        p["y"] = mu + (rng.normal(size=(n, ycols)) if ycols > 1 else rng.normal(size=n))
+        p["y"] = mu + (rng.normal(size=(n, abs(ycols))) if ycols != 1 else rng.normal(size=n))
     else:
         m = 6          # as many landmarks as cells: all families evaluate kernels of the same shapes
         xu = x[rng.permutation(n)[:m]] + 0.1 * scale * rng.normal(size=(m, d)) * (np.arange(d) < ds)
         p["xu"] = xu
         pts = xu
         if fam == "lm":
-            p["y"] = mu + (rng.normal(size=(n, ycols)) if ycols > 1 else rng.normal(size=n))
+            p["y"] = mu + (rng.normal(size=(n, abs(ycols))) if ycols != 1 else rng.normal(size=n))
         else:
-            p["y"] = rng.normal(size=(m, ycols)) if ycols > 1 else rng.normal(size=m)
+            p["y"] = rng.normal(size=(m, abs(ycols))) if ycols != 1 else rng.normal(size=m)
     Z = margin_points(rng, pts, q, scale, tcol=(d - 1 if kind == "T" else None), tvals=tvals)
     if kind == "T":
         p["q"], p["t"] = np.ascontiguousarray(Z[:, :-1]), np.ascontiguousarray(Z[:, -1])
@@ -457,8 +471,10 @@ def run(ctx, res):
             break
         ds, q = menu[(i // len(order) + i) % len(menu)] if quick else menu[int(rng.integers(len(menu)))]
         form = "base" if rng.random() < 0.55 else "composite"
-        ycols = 2 if (kind == "P" and fam != "lmchol" and (not did_multi or rng.random() < 0.2)) else 1
-        did_multi = did_multi or ycols == 2
+        ycols = 1
+        if kind == "P" and fam != "lmchol" and (not did_multi or rng.random() < 0.25):
+            ycols = [2, 3, -1][int(rng.integers(3))] if did_multi else 2
+        did_multi = did_multi or ycols != 1
         jit = (False, True) if (i % 4 == 0) else ((True,) if i % 4 == 2 else (False,))
         hessian = ds <= 3 or not quick or i % 2 == 0
         run_case(ctx, res, gen_case(rng, fam, kind, ds, q, form, ycols, jit, hessian))
